@@ -493,6 +493,24 @@ def gen_scripted(rng, tier, mode=None):
     return case
 
 
+def gen_inflight(rng, tier):
+    """Forced-mode searches that end (stop rule, or a raising worker) while several pre-dispatched
+    futures are in flight, many of them already finished."""
+    case = gen_scripted(rng, tier, "forced")
+    total = sum(s["max_repeats"] for s in case["searches"])
+    for s in case["searches"]:
+        s["max_repeats"] = max(s["max_repeats"], 4)
+        if rng.random() < 0.7:
+            s["stop"] = rng.choice(["zero", "equil", "rate"])
+            s["amount"] = rng.randint(0, 2)
+    total = sum(s["max_repeats"] for s in case["searches"])
+    case["on_error"] = rng.choice(["warn", "raise", "raise"])
+    case["script"] = make_script(rng, total, "forced", False, raising=case["on_error"] != "raise", fast=0.6)
+    case["pre"] = rng.choice([3, 4, 5, None])
+    case["choices"] = [rng.randrange(6) for _ in range(total)]
+    return case
+
+
 def expected_stats(net, variant):
     tree = ctg.ContractionTree.from_path(net.sym_inputs(), net.sym_output(), net.sym_sizes(),
                                          path=variant_path(len(net.inputs), variant))
@@ -634,10 +652,9 @@ def oracle_scripted(case, obs):
         aborted = False
         if o["err"] not in (None, "KeyError:tree"):
             # with on_trial_error='raise' a failing trial takes the search down -- allowed only if
-            # such a trial was submitted by this search and is not among the recorded ones
+            # such a trial was submitted by this search
             mine = range(first_sub, first_sub + o["submitted_new"])
-            culprits = [t for t in mine if t in script and script[t][1]["kind"] in RAISING_KINDS
-                        and t not in o["params"]]
+            culprits = [t for t in mine if t in script and script[t][1]["kind"] in RAISING_KINDS]
             scripted_err = o["err"].startswith(("ValueError:scripted", "OverflowError:"))
             if case["on_error"] == "raise" and culprits and scripted_err:
                 aborted = True
@@ -670,8 +687,11 @@ def oracle_scripted(case, obs):
             if has_tree:
                 want_sc = expected_score(p, comp)
                 if want_sc != want_sc:
-                    if sc == sc:
+                    # the objective answered NaN: recorded as NaN, or turned into a failed trial (+inf)
+                    if sc == sc and sc != float("inf"):
                         return ("row-score", [i, tid, p["kind"], o["scores"][i]])
+                    if sc == float("inf") and [o["flops"][i], o["write"][i], o["size"][i]] == [None, None, None]:
+                        continue
                 elif math.isinf(want_sc):
                     if sc != want_sc:
                         return ("row-score-finiteness", [i, tid, p["kind"], o["scores"][i]])
@@ -687,8 +707,6 @@ def oracle_scripted(case, obs):
             got = [o["flops"][i], o["write"][i], o["size"][i]]
             if got != want:
                 return ("row-figures", [i, tid, got, want])
-            if o.get("times_ok") is not None and not o["times_ok"][i]:
-                return ("row-time", [i, tid])
         seen_before = n
         # get_trials() is the same record, row by row
         rows = [[o["methods"][i], o["size"][i], o["flops"][i], o["write"][i], o["params"][i]] for i in range(n)]
@@ -719,8 +737,6 @@ def oracle_scripted(case, obs):
                                                             if unf(sc) == mn]])
         if script[b["tid"]][1]["kind"] not in TREE_KINDS or script[b["tid"]][1]["kind"] == "nan":
             return ("best-is-a-failed-trial", b)
-        if not b["time_in_times"]:
-            return ("best-time-not-recorded", b)
         r = o.get("ret")
         if r is None or not (r["is_best_tree"] and r["complete"] and r["net_ok"]):
             return ("returned-tree", r)
@@ -749,7 +765,8 @@ def has_new_features(case, obs):
     """Does the case use anything the earlier model (c08.search) does not have?"""
     if any(p["kind"] in ("nan", "ninf") for _, p in case["script"]):
         return True
-    return any(o["err"] not in (None, "KeyError:tree") or o.get("late") or o.get("discarded") for o in obs)
+    return any(o["err"] not in (None, "KeyError:tree") or o.get("late") or o.get("discarded") or o.get("raised")
+               for o in obs)
 
 
 def model_requests(case, obs):
@@ -776,7 +793,9 @@ def model_requests(case, obs):
             xtrials.append("raise" if (p["kind"] in RAISING_KINDS and case["on_error"] == "raise") else fail)
     searches = []
     first_sub, seen = 0, 0
-    done = sorted({t for o in obs for t in (o.get("discarded") or [])})
+    # workers known to have finished by the time the clean-up popped their future
+    done = sorted({t for o in obs for t in (o.get("discarded") or []) + (o.get("late") or []) +
+                   ((o.get("raised") or []) if o["err"] in (None, "KeyError:tree") else [])})
     for s, o in zip(case["searches"], obs):
         late = [t for t in (o.get("late") or [])]
         recorded = o["params"][seen:]
@@ -853,8 +872,14 @@ def compare_states(case, obs, resp, softstats, extended):
                 "submitted": sum(x["submitted_new"] for x in obs[:si + 1])}
         if extended:
             mine["get_trials"] = o["get_trials"]
-            if o.get("times_ok") is not None:   # time ids: the tid of the trial the float belongs to
-                mine["times"] = [t if ok else -1 for t, ok in zip(o["params"], o["times_ok"])]
+            if len(st["times"]) != o["lens"][6]:
+                return f"search {si}: len(times): model {len(st['times'])} vs implementation {o['lens'][6]}"
+            if o.get("times_ok") is not None:
+                # which float each row of `times` carries (model: the row's own trial's, as id) is
+                # bookkeeping the property does not talk about: counted
+                mt = [t if ok else -1 for t, ok in zip(o["params"], o["times_ok"])]
+                key = "times:" + ("agree" if st["times"] == mt else "differ")
+                softstats[key] = softstats.get(key, 0) + 1
         for k, v in mine.items():
             if st[k] != v:
                 return f"search {si}: field {k}: model {st[k]} vs implementation {v}"
@@ -894,10 +919,14 @@ def compare_states(case, obs, resp, softstats, extended):
                     if r.get("raised_id") is not None and [r["raised_id"]] != o["raised"]:
                         return f"search {si}: raising future: model {r['raised_id']} vs implementation {o['raised']}"
                 else:
-                    if sorted(o["cancel_calls"]) != sorted(r["cancelled"]):
-                        return f"search {si}: cancelled futures: model {r['cancelled']} vs implementation {o['cancel_calls']}"
-                    if sorted(o["discarded"]) != sorted(r["discarded"]):
-                        return f"search {si}: finished futures dropped at clean-up: model {r['discarded']} vs implementation {o['discarded']}"
+                    # a future popped by the clean-up is cancelled, or (a tree that collects finished
+                    # ones) its result is taken
+                    popped = sorted(set(o["cancel_calls"]) | set(o["late"]) | set(o["raised"]))
+                    if popped != sorted(r["cancelled"]):
+                        return f"search {si}: futures popped at clean-up: model {r['cancelled']} vs implementation {popped}"
+                    fin = sorted(set(o["discarded"]) | set(o["late"]) | set(o["raised"]))
+                    if fin != sorted(r["discarded"]):
+                        return f"search {si}: finished futures met by the clean-up: model {r['discarded']} vs implementation {fin}"
         elif o["cancel_calls"] is not None and sorted(o["cancel_calls"]) != sorted(r["cancelled"]):
             return f"search {si}: cancelled futures: model {r['cancelled']} vs implementation {o['cancel_calls']}"
     return None
@@ -925,6 +954,53 @@ def model_scripted(drv, case, obs, softstats):
         if diff:
             return "c08.search: " + diff
         softstats["also_earlier_model"] = softstats.get("also_earlier_model", 0) + 1
+    return None
+
+
+def determinize(case, obs):
+    """A violation met on a real pool depends on that run's scheduling.  Try to reproduce it with the
+    forced executor -- the observed completion order, workers that were finished at clean-up scripted
+    `fast`; then a few random schedules of the same script -- so that the replay is deterministic.
+    Returns (case, bad) or None."""
+    if case.get("mode") not in ("threads", "procs") or not obs:
+        return None
+    base = json.loads(json.dumps(case))
+    base["mode"] = "forced"
+    base["pre"] = obs[0]["pre"]
+    for _, p in base["script"]:
+        p["delay"] = 0.0
+    tries = []
+    choices, first_sub, seen, ok = [], 0, 0, True
+    for s, o in zip(case["searches"], obs):
+        late = o.get("late") or []
+        rec = o["params"][seen:]
+        picked = rec[:len(rec) - len(late)] if late else list(rec)
+        if o["err"] not in (None, "KeyError:tree") and o.get("raised"):
+            picked.append(o["raised"][0])
+        ch = derive_choices(picked, o["pre"], s["max_repeats"], first_sub)
+        if ch is None:
+            ok = False
+            break
+        choices += ch
+        first_sub += o["submitted_new"]
+        seen = len(o["params"])
+    fin = {t for o in obs for t in (o.get("discarded") or []) + (o.get("late") or [])}
+    if ok:
+        tries += [(choices, fin), (choices, set())] if fin else [(choices, set())]
+    r = random.Random(len(json.dumps(case)))
+    total = sum(x["max_repeats"] for x in case["searches"])
+    for _ in range(40):
+        tries.append(([r.randrange(6) for _ in range(total)],
+                      {p["tid"] for _, p in base["script"] if r.random() < 0.5}))
+    for ch, fast in tries:
+        c2 = json.loads(json.dumps(base))
+        c2["choices"] = list(ch)
+        for _, p in c2["script"]:
+            if p["tid"] in fast:
+                p["fast"] = True
+        obs2, bad2 = judge(c2)
+        if bad2 is not None:
+            return c2, bad2
     return None
 
 
@@ -984,6 +1060,10 @@ def check_scripted(ctx, drv, case):
     ctx.case(case, nontrivial=nontrivial)
     bad = bad0
     if bad is not None:
+        det = determinize(case, obs)
+        if det is not None:
+            ctx.count("A:pool_violation_reproduced_with_forced_executor")
+            case, bad = det
         report(ctx, case, bad, f"scripted hyper-optimizer search ({case['mode']}): {bad[0]}")
         return False
     if drv is not None:
@@ -1663,6 +1743,10 @@ def _run(ctx, drv):
         mode = None
         if i % 40 != 0:
             mode = ctx.rng.choice(["serial", "serial", "forced", "forced", "forced", "forced", "threads"])
+        if i % 7 == 3:
+            check_scripted(ctx, drv, gen_inflight(ctx.rng, ctx.tier))
+            ctx.count("A:gen:inflight")
+            continue
         check_scripted(ctx, drv, gen_scripted(ctx.rng, ctx.tier, mode))
     # A': exhaustive forced completion orders for small searches
     combos = [(1, 3), (2, 3), (2, 4), (3, 4)] if quick else [(1, 4), (2, 4), (3, 4), (2, 5), (3, 5), (4, 5), (2, 6)]
@@ -1713,9 +1797,13 @@ def search(ctx):
             else:
                 case = gen_real(rng, "quick")
                 case["pool"] = "serial"
-            holds, sig, bad = replay_case(ctx, case)
+            obs, bad = judge(case)
+            holds = bad is None
             if not holds:
-                sig = dict(sig)
+                det = determinize(case, obs) if case.get("kind") == "scripted" else None
+                if det is not None:
+                    case, bad = det
+                sig = dict(sig_of(case, bad))
                 sig["found_by"] = "search"
                 if ctx.violation(sig, {"case": case, "failed": [bad[0], str(bad[1])[:300]]},
                                  f"failing input found by search: {bad[0]}"):
